@@ -3,7 +3,7 @@ from .. import core, gen, build
 
 RULE = ("random copy_surface / blend_surface (28 modes) / blend_surface_with_alpha calls: destination and source "
         "sizes 0..6 (sometimes up to 40), src_rect inside/overlapping/outside/empty/inverted incl. far away (up to "
-        "2^29), dst negative/inside/beyond, premultiplied random pixels; non-trivial = at least one destination pixel "
+        "the ends of the i32 range), dst negative/inside/beyond, premultiplied random pixels; non-trivial = at least one destination pixel "
         "is written AND (src_rect.min != (0,0) or the block is cut by a source or destination edge); distinct by "
         "case text. thorough adds the exhaustive enumeration of all rectangles in -1..3 and offsets in -2..3 on "
         "small surfaces")
@@ -21,7 +21,7 @@ def size(rng):
 def coord(rng, n):
     c = rng.random()
     if c < 0.06:
-        return rng.choice([-1, 1]) * rng.choice([10 ** 6, 2 ** 20, 2 ** 29, 2 ** 29 - 1, 3 * 10 ** 8])
+        return rng.choice([-1, 1]) * rng.choice([10 ** 6, 2 ** 20, 2 ** 29, 2 ** 29 - 1, 3 * 10 ** 8, 2 ** 30, 2 ** 31 - 1, 2 ** 31 - 2, 2 ** 31 - 5])
     return rng.randrange(-3, n + 4)
 
 
@@ -41,6 +41,8 @@ def make_case(rng, cid, kind=None):
         else:
             x1, y1 = coord(rng, sw), coord(rng, sh)
         dx, dy = coord(rng, dw), coord(rng, dh)
+    I32 = lambda v: max(-2 ** 31, min(2 ** 31 - 1, v))
+    x0, y0, x1, y1, dx, dy = map(I32, (x0, y0, x1, y1, dx, dy))
     k = kind or rng.choice(["copy", "copy", "blend", "blend", "alpha"])
     if k == "copy":
         param = 0
@@ -109,7 +111,7 @@ def run(ctx):
     return core.finish(ctx, rule=RULE, samples=[lines[len(lines) // 3][:400], lines[-1][:400]],
                        evaluations=len(lines), distinct=distinct,
                        extra=dict(kind_distribution=kinds, exhaustive=False),
-                       assumptions=["coordinates of src_rect and dst within +-2^29 (theorem domain dom_ok)",
+                       assumptions=["any i32 coordinates of src_rect and dst (theorem domain dom_ok: non-negative sizes only)",
                                     "pixels premultiplied (generator); blend modes whose formula trips "
                                     "sw-composite's debug assertion (mode Color, see C18) are compared as 'both panic'"])
 
